@@ -291,6 +291,11 @@ fn uint_rem_limb<const N: usize>() {
 }
 /// divisor (slot 1) is PUBLIC
 #[inline(never)]
+fn uint_mul_mod_trait<const N: usize>() {
+    // the `MulMod` TRAIT method (not named vartime; forwards to mul_mod_vartime)
+    st(0, &crypto_bigint::MulMod::mul_mod(&ld::<N>(0), &ld::<N>(1), &ld::<N>(2)))
+}
+#[inline(never)]
 fn uint_div_rem_vartime<const N: usize>() {
     let (q, r) = ld::<N>(0).div_rem_vartime(&nz::<N>(1));
     st(0, &q);
@@ -867,6 +872,7 @@ pub fn registry() -> Vec<Entry> {
     reg!(v, "uint.checked_div", uint_checked_div, [1, 2, 4, 8]);
     reg!(v, "uint.div_rem_limb", uint_div_rem_limb, [1, 2, 4, 8]);
     reg!(v, "uint.rem_limb", uint_rem_limb, [1, 2, 4, 8]);
+    reg!(v, "uint.mul_mod_trait", uint_mul_mod_trait, [1, 2, 4, 8]);
     reg!(v, "uint.div_rem_vartime", uint_div_rem_vartime, [1, 2, 4, 8]);
     reg!(v, "uint.rem_vartime", uint_rem_vartime, [1, 2, 4, 8]);
     reg!(v, "uint.add_mod", uint_add_mod, [1, 2, 3, 4, 6, 8, 16]);
